@@ -37,6 +37,40 @@ type WalkResults struct {
 
 type GetObjFunc func(path string, d fs.DirEntry) (s3response.Object, error)
 
+// hasObject reports whether a directory stands for at least one key: it is
+// an object itself (explicit directory object) or holds one at any depth.
+func hasObject(fileSystem fs.FS, dir string, d fs.DirEntry, getObj GetObjFunc) (bool, error) {
+	_, err := getObj(dir+"/", d)
+	if err == nil {
+		return true, nil
+	}
+	if err != ErrSkipObj {
+		return false, err
+	}
+	ents, err := fs.ReadDir(fileSystem, dir)
+	if err != nil {
+		return false, err
+	}
+	for _, ent := range ents {
+		name := dir + "/" + ent.Name()
+		if ent.IsDir() {
+			ok, err := hasObject(fileSystem, name, ent, getObj)
+			if ok || err != nil {
+				return ok, err
+			}
+			continue
+		}
+		_, err := getObj(name, ent)
+		if err == nil {
+			return true, nil
+		}
+		if err != ErrSkipObj {
+			return false, err
+		}
+	}
+	return false, nil
+}
+
 var ErrSkipObj = errors.New("skip this object")
 
 // Walk walks the supplied fs.FS and returns results compatible with list
@@ -234,6 +268,30 @@ func Walk(ctx context.Context, fileSystem fs.FS, prefix, delimiter, marker strin
 		if cpref < marker {
 			// skip common prefixes that are before the marker
 			return skipflag
+		}
+
+		// A common prefix stands for at least one key: the entry it is
+		// derived from has to be an object (a file that getObj does not
+		// skip, such as a delete marker) or a directory with an object
+		// somewhere below it.
+		if _, seen := cpmap[cpref]; !seen {
+			var visible bool
+			var err error
+			if d.IsDir() {
+				visible, err = hasObject(fileSystem, strings.TrimSuffix(path, "/"), d, getObj)
+			} else {
+				_, err = getObj(path, d)
+				visible = err == nil
+				if err == ErrSkipObj {
+					err = nil
+				}
+			}
+			if err != nil {
+				return fmt.Errorf("file to object %q: %w", path, err)
+			}
+			if !visible {
+				return skipflag
+			}
 		}
 
 		if pastMax {
